@@ -324,7 +324,8 @@ class DataFormat(object):
 
         if name == KEY_ENCODING:
             try:
-                codecs.lookup(value)
+                if not getattr(codecs.lookup(value), "_is_text_encoding", True):
+                    raise LookupError("%r is not a text encoding" % value)
             except (LookupError, ValueError):
                 raise errors.InterfaceError(
                     "value for data format property %s is %s but must be a valid encoding"
